@@ -4,6 +4,16 @@ from harness import corpus
 PROP = "C06"
 MONITORS = ("M-fail", "M-life", "M-drain", "M-ref", "M-hist", "M-carry")
 def scenarios(tier):
-    return corpus.fanout_fail_family(tier)
+    scs = corpus.fanout_fail_family(tier)
+    if tier == "thorough":
+        # the timed schedule class: time may pass (once) while an event, a reply or a 0 ms timer is ready - siblings in a Wait or in a
+        # Retry interval, Task time-outs and the heart-beat then interleave with the failure in more ways
+        import copy
+        for s0 in list(scs):
+            if s0.get("schedule") != "timed" and s0["family"].startswith(("parfail-wait-sibling-", "parfail-recovering-sibling-", "parfail-retrying-sibling-", "mapfail-mc1-")):
+                s = copy.deepcopy(s0)
+                s["name"] += "@timed"; s["family"] += "@timed"; s["schedule"] = "timed"; s["delay_budget"] = 1
+                scs.append(s)
+    return scs
 def run(tier, seed):
     return common.engine_check(PROP, scenarios(tier), MONITORS, tier, seed)
